@@ -111,6 +111,17 @@ def run(ctx):
     # (0b) a planner object plans many statements: results registered for one plan (CTE results) may not be visible to the next - a step would read a result of
     # another plan (C20's rule)
     C20.check_planner_reuse(ctx, 'C09.plan-state-reset')
+    # (0c) planning never fails with an internal error: the time-series join planner writes its fetch queries FROM the data side of the join, so anything but a
+    # table reference / native query there must be refused, not passed on (C15's table, re-run)
+    from . import C15
+    from ..interp import class_members as _cm
+    from ..cfg import class_named as _cn
+    _ts = _cn(ctx.src.tree(C15.TS), 'PlanJoinTSPredictorQuery')
+    if _ts is not None and 'plan' in _cm(_ts):
+        C15._CTX.update(tree=ctx.src.tree(C15.TS), src=ctx.src)
+        ctx.setcount('ts_table_kind_rows', C15.table_kind_rows(ctx, _cm(_ts), rule='C09.exceptions'))
+    else:
+        ctx.note('PlanJoinTSPredictorQuery.plan not found: the time-series join is planned elsewhere')
     # (0b) a CTE's result is referenced by the steps that read it: the table that maps CTE names to results is written (plan_cte) and read
     # (get_integration_select_step) under the same spelling (C08's table, re-run)
     from . import C08
